@@ -104,5 +104,7 @@ func VerifC01Piper() {
 	}
 	vapi.Assert(len(got[0]) == 3 && len(got[1]) == 3 && got[0][0] != got[1][0], "C01: the two local connections are carried by two different streams (nothing taken from another stream)")
 	vapi.Assert(vapi.BytesEq(repA, RA) && vapi.BytesEq(repB, RB), "C01: replies come back on the local connection they belong to")
+	vapi.Assert(locA.ReadDeadline.IsZero() && locB.ReadDeadline.IsZero(), "C01: the first-packet read deadline is cleared once the first packet has arrived (an armed deadline would cut a healthy long-lived connection)")
+	vapi.Assert(!locA.Closed && !locB.Closed && !cs.IsClosed() && !ss.IsClosed(), "C01: while everything is healthy and nobody closes, the relay keeps working")
 	vapi.Reach("piper-end")
 }
